@@ -13,6 +13,6 @@ cd /verif
 for c in "$@"; do
   out=$(VERIF_REPO=$wt ./check $c 2>&1); rc=$?
   echo "== $c on seeded/$name: exit $rc"
-  echo "$out" | grep -E "^VIOLATION|signature|^KNOWN|CHECK-ERROR" | head -8
+  echo "$out" | grep -E "^VIOLATION|signature|CHECK-ERROR" | head -8; echo "$out" | grep -c "^KNOWN" | sed "s/^/known-finding lines: /"
 done
 git -C /repo worktree remove --force $wt
